@@ -66,6 +66,20 @@ theorem gate_zip (inflate : Bytes → Nat → Option Bytes) (junk : Bytes) (st :
             simp only [bne_iff_ne, ne_eq, Decidable.not_not] at hl hcrc
             exact ⟨hcrc.symm, hl.symm⟩
 
+theorem gate_zip_member (inflate : Bytes → Nat → Option Bytes) (junk : Bytes) (st : ZipStat) (tail : Option Bytes)
+    (out : Bytes) (h0 : st.uncompSize ≠ 0) (h1 : st.uncompSize ≠ 0xFFFFFFFF)
+    (h : zipMember inflate junk st tail = some out) :
+    st.crc32 = (crc32A out 0).toNat ∧ st.uncompSize = out.length := by
+  unfold zipMember at h
+  split at h
+  · rename_i hok
+    by_cases hc : st.compSize = 0
+    · exfalso
+      unfold zipCdirOk at hok
+      simp [hc, h0, h1] at hok
+    · exact gate_zip inflate junk st tail out hc h
+  · simp at h
+
 theorem bz_hc_ne (hc : BitVec 32) : hc ≠ hc + 1 := by
   intro h
   have h1 := congrArg BitVec.toNat h
